@@ -35,7 +35,10 @@ THEOREMS = ["fasta_read_write", "fasta_rewrap_invariant", "fasta_file_lines", "f
             # round 4: esl-compstruct
             "compstruct_correct_le_pairs", "compstruct_strict_correct_symmetric", "compstruct_self_is_perfect", "compstruct_mathews_relaxes",
             # round 4: esl-compalign
-            "compalign_self_is_perfect", "compalign_correct_le_counted"]
+            "compalign_self_is_perfect", "compalign_correct_le_counted",
+            # round 6: the streamed (--small) paths: esl_msafile2_RegurgitatePfam as esl-alimask / esl-alimanip call it, esl-alistat --small
+            "small_regurgitate_rows", "small_regurgitate_identity", "small_regurgitate_seq_line", "small_mask_shrinks",
+            "small_wanted_sublist", "small_alistat_is_projection", "small_reformat_afa_eq_reference"]
 
 SQFORMATS = ["fasta", "embl", "genbank", "uniprot", "ddbj", "daemon", "hmmpgmd", "ncbi", "fmindex"]
 MSAFORMATS = ["stockholm", "pfam", "a2m", "afa", "psiblast", "clustal", "clustallike", "selex", "phylip", "phylips"]
@@ -68,9 +71,9 @@ def op_run(tool, argv, stdin=None, t=None):
 
 
 def asks_huge(argv):
-    """command line contains an integer >= 10^5 (asks for a very large amount of work: a timeout is not a hang)"""
+    """command line contains an integer >= 10^4 (asks for a very large amount of work: a timeout is not a hang)"""
     for a in argv:
-        for m in re.finditer(rb"\d{6,}", a):
+        for m in re.finditer(rb"\d{5,}", a):
             return True
     return False
 
@@ -656,6 +659,8 @@ def _file_bytes(ops, name):
 
 def _valued(rng, tool, o, files):
     v = option_value(rng, tool, o, files, True)
+    if v is not None and re.fullmatch(r"\d{4,}", v) and o["type"] == "eslARG_INT":
+        v = rng.choice(["1", "2", "3", "5", "10"])      # a valid but large count is a long computation under the sanitizers, not a hang
     return [o["name"]] if v is None else [o["name"], v]
 
 
@@ -2641,6 +2646,10 @@ def corpus_cases(ctx):
     for k_, o_ in enumerate(["--seq-k", "--seq-r"]):
         out.append({"name": "corpus-regress-682375e-regurgitate-gs-%d" % k_, "ref": True, "sticky": 2,
                     "ops": [op_file("q.sto", q_), op_file("list", "s1\n"), op_run("esl-alimanip", ["--small", o_, "list", "--rna", "--informat", "pfam", "q.sto"])]})
+    # round 6 (bigint stream): esl-shuffle -k 2147483647 allocated a K-byte scratch word for a sequence with fewer than two K-mers ('malloc of size
+    # 2147483647 failed', SIGABRT under a memory limit); repaired in b700765: the sequence is copied
+    out.append({"name": "corpus-regress-b700765-shuffle-k-huge", "expect_ok": True,
+                "ops": [op_file("in0", ">s1\nACGTACGTAC\n"), op_run("esl-shuffle", ["-k", "2147483647", "-S", "in0"])]})
     # round 6: esl-reformat --small pfam with a WUSS option: inverted #=GR / SS tests ('bad #=GR line' on any #=GF line); repaired in 2415140
     out.append({"name": "corpus-regress-2415140-reformat-small-dewuss", "expect_ok": True,
                 "ops": [op_file("w.sto", "# STOCKHOLM 1.0\n#=GF ID aln1\n\ns1         ACGU-ACGU.NN\n#=GR s1 SS <<<<....>>>>\nseq_two    AC-UUACGU.NN\n#=GC SS_cons <<<<....>>>>\n//\n"),
